@@ -24,7 +24,11 @@ func TestC01Gate(t *testing.T) {
 	col := ev.For("C01").SetRule("gate: per case one WebSocket connection to a relay with a recording handler, 1-6 EVENT frames each carrying a freshly signed event (content and tag values over all Unicode scalar values plus snippets that look like JSON syntax, member names or escapes) or an altered copy of one (content, created_at, kind, tag, pubkey, id digit, sig digit); the handler must have received exactly the genuine ones, in order, equal in all seven fields; non-trivial = at least one genuine event with a character outside printable ASCII or a backslash and at least one altered copy; distinct by hash of the frames")
 	rapid.Check(t, func(t *rapid.T) {
 		h := newRecHandler()
-		rig := newWSRig(openOptions(), h)
+		opt := openOptions()
+		if rapid.Bool().Draw(t, "logger") {
+			opt.Logger = discardLogger()
+		}
+		rig := newWSRig(opt, h)
 		defer rig.close()
 		c, err := dial(rig.url)
 		if err != nil {
